@@ -235,6 +235,27 @@ def gen_cases(rng, tier, ctx):
     # the same kind of histories through the second driver (feature_awg/tabor.py)
     for _ in range(n_hist // 2):
         cases.append(dict(_rand_hist(rng), driver='feature'))
+    # ---- slot 0 / idle segment / aliasing: written-out family (both drivers), random histories in which 15 % / 40 % of
+    # the segments are the idle segment, small-scope exhaustive histories
+    for c in _slot0_family():
+        cases.append(c)
+        cases.append(dict(c, driver='feature'))
+    for k in range(n_hist // 2):
+        c = _rand_hist(rng, idle_p=(0.15, 0.4)[k % 2])
+        cases.append(c if k % 3 else dict(c, driver='feature'))
+    for c in itertools.chain(_small_histories(1), _small_histories(2)):       # 21 + 441
+        cases.append(c)
+    if thorough:
+        cases.extend(_small_histories(3))                                      # 9261
+        alpha = _hist_alphabet()
+        for k in range(15000):
+            ops = [list(rng.choice(alpha)) for _ in range(rng.choice([4, 4, 5, 6]))]
+            cases.append(dict({'kind': 'hist', 'total': 100000, 'ops': ops}, **({'driver': 'feature'} if k % 4 == 0 else {})))
+    else:
+        alpha = _hist_alphabet()
+        for k in range(150):
+            ops = [list(rng.choice(alpha)) for _ in range(rng.choice([3, 4, 5]))]
+            cases.append(dict({'kind': 'hist', 'total': 100000, 'ops': ops}, **({'driver': 'feature'} if k % 4 == 0 else {})))
     cases.append({'kind': 'hist', 'driver': 'feature', 'total': 2000, 'ops': [
         ['upload', 1, [[11, 208], [15, 400], [26, 256], [4, 192]], True], ['upload', 1, [[11, 208], [25, 400], [23, 384]], True]]})
     return cases
@@ -303,9 +324,14 @@ def sweep_scopes(scopes, seed, limit=None, procs=4):
 
 
 SEG_LEN = {h: [192, 208, 224, 384, 192, 400, 256, 208, 1024, 192][h % 10] for h in range(1, 31)}
+# hash 0 / 192 points = the idle segment the drivers keep in slot 0 (c19_driver: `_idle_segment = Seg(0, 192)`); a program
+# segment with this hash is "bit-identical to the idle waveform" and is placed on slot 0
+IDLE_SEG = [0, 192]
+SEG_LEN[0] = 192
 
 
-def _rand_hist(rng):
+def _rand_hist(rng, idle_p=0.0):
+    """idle_p: probability that a segment of an uploaded program is the idle segment (hash 0, re-uses slot 0)"""
     total = rng.choice([800, 1200, 2000, 4000, 100000])
     npool = rng.choice([4, 8, 30])
     ops = []
@@ -322,8 +348,9 @@ def _rand_hist(rng):
                 name = rng.choice(free_names or [1])
             k = rng.choice([0, 1, 1, 2, 2, 3, 4])
             # new hashes, or (half of the time) hashes that were uploaded earlier in this history
-            hs = [rng.choice(seen) if seen and rng.random() < 0.5 else rng.randint(1, npool) for _ in range(k)]
-            seen.extend(hs)
+            hs = [0 if rng.random() < idle_p else
+                  rng.choice(seen) if seen and rng.random() < 0.5 else rng.randint(1, npool) for _ in range(k)]
+            seen.extend(h for h in hs if h)
             if rng.random() < 0.8:
                 hs = list(dict.fromkeys(hs))     # a program usually has distinct segments
             ops.append(['upload', name, [[h, SEG_LEN[h]] for h in hs], force])
@@ -340,6 +367,63 @@ def _rand_hist(rng):
             ops.append(['clear'])
             known = []
     return {'kind': 'hist', 'total': total, 'ops': ops}
+
+
+def _slot0_family():
+    """Histories around slot 0 / the idle segment, written out (class missed before round 3: the generator never produced a
+    segment whose hash equals the reserved idle segment's, so slot 0 was never re-used, shared or un-counted).  Also the
+    aliasing classes: the same program content under several names, forced re-upload of identical content, the same name
+    removed twice, a program containing the same segment twice."""
+    Z, A, B, C, D, E = IDLE_SEG, [11, 256], [12, 320], [13, 192], [14, 256], [15, 192]
+    out = []
+
+    def H(ops, total=100000):
+        out.append({'kind': 'hist', 'total': total, 'ops': ops})
+    for rm in ('remove', 'free'):
+        for first in (1, 2):
+            # two programs share slot 0 with each other and with the idle sequence; one goes; a 192-point unknown segment
+            # must not be offered slot 0; then the other goes, too
+            H([['upload', 1, [Z, A], False], ['upload', 2, [Z, B], False], [rm, first], ['upload', 3, [C, D], False],
+               [rm, 3 - first], ['upload', 4, [E], False], ['cleanup'], ['upload', 5, [Z, C], False]])
+    H([['upload', 1, [Z], False], ['remove', 1], ['upload', 2, [C], False]])     # a program that IS the idle waveform
+    H([['upload', 1, [Z], False], ['upload', 2, [Z], False], ['upload', 3, [Z], False], ['remove', 2], ['remove', 1],
+       ['upload', 4, [C], False], ['remove', 3], ['upload', 5, [E], False]])
+    # the same segment twice in one program: counted once on upload, un-counted once on removal
+    H([['upload', 1, [Z, Z], False], ['upload', 2, [Z, A, Z], False], ['remove', 1], ['upload', 3, [C], False],
+       ['remove', 2], ['upload', 4, [C, E], False]])
+    H([['upload', 1, [A, A], False], ['upload', 2, [A, B, A], False], ['remove', 1], ['upload', 3, [D], False],
+       ['remove', 2], ['upload', 4, [D, [16, 256]], False]])
+    # re-registration of the same name with identical content (free + re-use of its own slots with count 0)
+    H([['upload', 1, [Z, A], False], ['upload', 1, [Z, A], True], ['upload', 1, [Z, A], True], ['remove', 1],
+       ['upload', 2, [C], False]])
+    H([['upload', 1, [A, B], False], ['upload', 1, [A, B], True], ['upload', 1, [B, A], True], ['upload', 2, [A, B], False],
+       ['upload', 1, [A, B], True], ['remove', 1], ['upload', 3, [D, [16, 320]], False]])
+    # the same content under three names; a name removed twice
+    H([['upload', 1, [Z, A], False], ['upload', 2, [Z, A], False], ['upload', 3, [Z, A], False], ['remove', 2],
+       ['remove', 2], ['remove', 1], ['upload', 4, [C, D], False], ['remove', 3], ['upload', 5, [E, [16, 256]], False]])
+    # slot 0 shared, everything freed without cleanup, then a batch that could use every freed slot
+    H([['upload', 1, [A, Z], False], ['upload', 2, [B, Z], True], ['free', 1], ['free', 2],
+       ['upload', 3, [C, D, E], False], ['cleanup'], ['upload', 4, [Z], False], ['free', 4], ['upload', 5, [[16, 192]], False]])
+    H([['upload', 1, [Z, A], False], ['clear'], ['upload', 2, [Z, B], False], ['remove', 2], ['upload', 3, [C], False]])
+    # tight memory: only slot 0 (192 points) could take the new segment
+    H([['upload', 1, [Z, A], False], ['upload', 2, [Z], False], ['remove', 1], ['upload', 3, [C], False]], total=192 + 256)
+    H([['upload', 1, [Z, A], False], ['upload', 2, [Z], False], ['remove', 1], ['upload', 3, [C], False]], total=192 + 272)
+    H([['upload', 1, [Z], False], ['remove', 1], ['upload', 2, [C], False], ['upload', 3, [E], False]], total=192 + 208)
+    return out
+
+
+def _hist_alphabet():
+    Z, A, C = IDLE_SEG, [11, 256], [13, 192]
+    ops = [['upload', name, segs, force] for name in (1, 2) for segs in ([Z], [Z, A], [C], [A]) for force in (False, True)]
+    ops += [['remove', 1], ['remove', 2], ['free', 1], ['free', 2], ['cleanup']]
+    return ops
+
+
+def _small_histories(length):
+    """all histories of exactly `length` operations over 21 operations: 2 names x {idle, idle+A, C (192 points), A} x
+    force, remove / free of both names, cleanup"""
+    for ops in itertools.product(_hist_alphabet(), repeat=length):
+        yield {'kind': 'hist', 'total': 100000, 'ops': [list(o) for o in ops]}
 
 
 # ---------------------------------------------------------------------------------------------------------------------
@@ -525,6 +609,12 @@ def hist_safe(case, obs):
         if st['hashes'] != st['dev']:
             return 'step %d (%s): the driver records slot contents %r but the instrument holds %r' % (
                 k, case['ops'][k][0], st['hashes'], st['dev'])
+        if n < 1 or st['dev'][0] != IDLE_SEG[0]:
+            return 'step %d (%s): slot 0 holds %r instead of the idle waveform' % (
+                k, case['ops'][k][0], st['dev'][0] if n else None)
+        if st['refs'][0] < 1:
+            return 'step %d (%s): slot 0 (idle waveform, played by the idle sequence) has reference count %d' % (
+                k, case['ops'][k][0], st['refs'][0])
         for name, w2s, segs in st['progs']:
             if len(w2s) != len(segs):
                 return 'step %d: program %d has %d slots for %d segments' % (k, name, len(w2s), len(segs))
@@ -582,6 +672,18 @@ def _hist_keys(case, obs):
                 keys.append('hist:upload-appended')
             if any(r2 > r1 >= 1 for r1, r2 in zip(prev['refs'][1:], st['refs'][1:])):
                 keys.append('hist:upload-shared-a-slot')
+        users0 = sum(1 for _, w2s, _ in st['progs'] if 0 in w2s)
+        if users0 >= 1:
+            keys.append('hist:slot0-used-by-a-program')
+        if users0 >= 2:
+            keys.append('hist:slot0-shared-by-programs')
+        if prev is not None and op[0] in ('remove', 'free') and st['err'] is None and \
+                sum(1 for _, w2s, _ in prev['progs'] if 0 in w2s) > users0 >= 1:
+            keys.append('hist:slot0-user-removed-while-another-stays')
+        if op[0] == 'upload' and any(sg[0] == 0 for sg in op[2]):
+            keys.append('hist:program-contains-idle-segment')
+        if op[0] == 'upload' and len({tuple(sg) for sg in op[2]}) < len(op[2]):
+            keys.append('hist:program-with-duplicate-segment')
         if prev is not None and op[0] in ('remove', 'cleanup') and len(st['dev']) < len(prev['dev']):
             keys.append('hist:cleanup-dropped-slots')
         prev = st
